@@ -393,11 +393,15 @@ def main(chk):
         'with 0-2 (3 thorough) mirror channels whose remaining capacity and closed flag are symbolic, symbolic message bytes and '
         'write faults on the real server: the real server gets exactly the request and the same Result for every mirror state; each '
         'mirror channel gets one byte-exact copy iff it is open and has capacity; any awaiting channel operation on the path is flagged. '
-        'tokio mpsc try_send/capacity/is_closed are modelled by contract. Counterexamples are replayed on the compiled code with real '
-        'tokio channels.')
+        'tokio mpsc try_send/capacity/is_closed are modelled by contract. (O2) mirror -> server mapping in from_config. (O3) THE MIRROR TASK: the coroutine '
+        'MirroredClient::start spawns (bb8 checkout, tokio::select! over exit signal / mirror replies / request channel, Server::send, has_broken at guard drop) is '
+        'executed from MIR on requests with symbolic bytes against a mirror that is silent, answers (result / BEGIN / SET: solver\'s choice), fails writes, or '
+        'stalls so that a timeout elapses after part of a request was written: each mirror connection carries whole requests of the client only, in order, each at '
+        'most once; a request cut short is the last thing written on its connection. Counterexamples are replayed on the compiled code with real '
+        'tokio channels and a real MirroringManager.')
     chk.assumptions += [
         'tokio::sync::mpsc::Sender::{try_send, capacity, is_closed} contracts',
-        'mirror task behaviour under faults/timing and added latency are outside the claim',
+        'mirror task: bb8 = one connection at a time, replaced when has_broken says so; added latency on the primary path is not measured',
     ]
     prog = chk.program('on')
     tasks = []
